@@ -21,7 +21,7 @@ def run(ctx):
     rng = ctx.rng
     # every prefix of the texts: inputs that end in the middle of every construct; empty input
     extra = []
-    for i in range(150 if quick else 3000):
+    for i in range(150 if quick else 12000):
         g = genprog.ProgGen(rng)
         src = g.program()
         t = genprog.gen_text(rng, "abc", 10)
@@ -30,7 +30,7 @@ def run(ctx):
     # to arbitrary (empty, one-byte, non-numeric, huge) match text
     caps = ["maybe (%s = v) %s v", "((%s = v) or %s) v", "at least 0 (%s = v) %s v v", "maybe ({%s = v} = s) %s v",
             "(maybe %s) = v %s v", "maybe (%s = v 'q') %s v 'b'", "(%s = v or %s) maybe v"]
-    for i in range(60 if quick else 600):
+    for i in range(60 if quick else 3000):
         a = rng.choice(["'a'", "'x'", "letter", "any", "digit"])
         b = rng.choice(["'a'", "'b'", "letter", "any"])
         src = "find all " + rng.choice(caps) % (a, b)
@@ -77,7 +77,7 @@ def run(ctx):
               "replace all 'b' with 'B'", "find all whole line", "find all (any = x) maybe x", "find all in 'a' to 'z'", "find all whitespace", "find all line end", "find last 1 any", "find all caseless 'CAF'"]
     ctx.coverage["hostile_byte_runs"] = impl_only_runs(ctx, bprogs, HOSTILE_TAILS + [t[:k] for t in HOSTILE_TAILS[:6] for k in range(len(t))], "C09")
     cases = [{"src": c["src"], "texts": c["texts"]} for c in load_corpus()] + extra
-    for i in range(300 if quick else 6000):
+    for i in range(300 if quick else 30000):
         g = genprog.ProgGen(rng)
         cases.append({"src": g.program(), "texts": [genprog.gen_text(rng) for _ in range(5)] + [""]})
     gres, dis, stats = corr_core.run_core(cases, shards=12, spec=False)
